@@ -166,9 +166,12 @@ Print Assumptions C06_accepted_boundary_grid_is_undefined.
 Theorem C06_example_cubic_row :
   @v2p_row R ROps (map (fun t => t * t) ex_row) ex_row [1 / 2; 5 / 2; 9 / 2] = Some [1 / 4; 25 / 4; 81 / 4].
 Proof. exact ex_cubic_row. Qed.
+Print Assumptions C06_example_cubic_row.
 Theorem C06_example_row_ok : row_ok ex_row /\ in_range ex_row (5 / 2).
 Proof. exact (conj ex_row_ok ex_in_range). Qed.
+Print Assumptions C06_example_row_ok.
 Theorem C06_example_range :
   @pressure_status R ROps [[0; 1; 2; 3; 4; 5]; [0; 1; 2; 3; 4; 6]] [0; 5] = Some true /\
   @pressure_status R ROps [[0; 1; 2; 3; 4; 5]; [0; 1; 2; 3; 4; 6]] [0; 11 / 2] = Some false.
 Proof. exact (conj ex_range_accept ex_range_reject). Qed.
+Print Assumptions C06_example_range.
